@@ -319,6 +319,7 @@ func typed(t *Term, ty types.Type) *Term {
 	switch {
 	case isNumeric(ty):
 		t.Num = true
+		t.Int = isInteger(ty)
 	case isBoolean(ty):
 		t.Bool = true
 	case isString(ty):
@@ -900,6 +901,7 @@ func (s *summarizer) binop(x *ssa.BinOp) *Term {
 		}
 		ca, cb := *a, *b
 		ca.Num, cb.Num = num, num
+		ca.Int, cb.Int = isInteger(x.X.Type()), isInteger(x.Y.Type())
 		return &Term{Op: "cmp", Val: x.Op.String(), Args: []*Term{&ca, &cb}, Bool: true}
 	case token.LAND:
 		return tAnd(a, b)
@@ -1325,10 +1327,7 @@ func (s *summarizer) collect() {
 }
 
 func (s *summarizer) backEdgePC(p *ssa.BasicBlock, l *loopInfo) *Term {
-	if s.loopOf[p] == l {
-		return s.pc(p)
-	}
-	return tTrue()
+	return s.edgePC(p, l.header)
 }
 
 // isInitStore: initialising store of a local (part of its struct/value term).
